@@ -30,6 +30,7 @@ Verdict run(const Ctx & x, const Case & c)
     }
     std::unique_ptr<zoo::IStack> a = f.build(c.cfg, c.ext, c.data);
     const std::string bytes = a->dump();
+    digest(x.inst, bytes.data(), bytes.size());
     std::unique_ptr<zoo::IStack> b = a->clone();                 // copy construction
     std::unique_ptr<zoo::IStack> m = b->move_out();              // move construction
     std::unique_ptr<zoo::IStack> blank = f.blank();              // default construction
@@ -56,6 +57,7 @@ Verdict run(const Ctx & x, const Case & c)
             continue;
         }
         Words w = a->at(xc);
+        digest(x.inst, w.data(), w.size() * 8);
         if (blank->at(xc) != w || blank2->at_variadic(xc) != w || l->at(xc) != w || r->at(xc) != w) {
             return std::string("copies of the field disagree at a generated coordinate");
         }
